@@ -62,6 +62,11 @@ from vsc.model.solvegroup_swizzler_range import SolveGroupSwizzlerRange
 from vsc.model.solvegroup_swizzler_partsel import SolveGroupSwizzlerPartsel
 from vsc.impl.ctor import glbl_debug, glbl_solvefail_debug
 
+# Newer pyboolector releases only expose the option ids on the BtorOption enum
+_btor_opts = pyboolector if hasattr(pyboolector, "BTOR_OPT_INCREMENTAL") else pyboolector.BtorOption
+BTOR_OPT_INCREMENTAL = _btor_opts.BTOR_OPT_INCREMENTAL
+BTOR_OPT_MODEL_GEN = _btor_opts.BTOR_OPT_MODEL_GEN
+
 
 class Randomizer(RandIF):
     """Implements the core randomization algorithm"""
@@ -142,8 +147,8 @@ class Randomizer(RandIF):
         while rs_i < len(ri.randsets()):
             btor = Boolector()
             self.btor = btor
-            btor.Set_opt(pyboolector.BTOR_OPT_INCREMENTAL, True)
-            btor.Set_opt(pyboolector.BTOR_OPT_MODEL_GEN, True)
+            btor.Set_opt(BTOR_OPT_INCREMENTAL, True)
+            btor.Set_opt(BTOR_OPT_MODEL_GEN, True)
             
             start_rs_i = rs_i
 
@@ -307,8 +312,8 @@ class Randomizer(RandIF):
         ret = ""
         
         btor = Boolector()
-        btor.Set_opt(pyboolector.BTOR_OPT_INCREMENTAL, True)
-        btor.Set_opt(pyboolector.BTOR_OPT_MODEL_GEN, True)
+        btor.Set_opt(BTOR_OPT_INCREMENTAL, True)
+        btor.Set_opt(BTOR_OPT_MODEL_GEN, True)
         model_valid = False
         
         diagnostic_constraint_l = [] 
@@ -384,8 +389,8 @@ class Randomizer(RandIF):
     def create_diagnostics(self, active_randsets) -> str:
         
         btor = Boolector()
-        btor.Set_opt(pyboolector.BTOR_OPT_INCREMENTAL, True)
-        btor.Set_opt(pyboolector.BTOR_OPT_MODEL_GEN, True)
+        btor.Set_opt(BTOR_OPT_INCREMENTAL, True)
+        btor.Set_opt(BTOR_OPT_MODEL_GEN, True)
         model_valid = False
         
         diagnostic_constraint_l = [] 
